@@ -43,7 +43,10 @@ EXCLUDE = {("Updater", "forward"): "C10.c accepts any value-equivalent write-bac
            ("StableTripletSTDP", "forward"): "summary takes > 5 s; covered by C08.a-c",
            ("LinearHomeostasis", "forward"): "behind known finding D24: a table would report its repair",
            ("SpikeRefractoryMixin", "spike"): "behind known finding D25",
-           ("Observable", "add_monitor"): "behind known finding D19"}
+           ("Observable", "add_monitor"): "behind known finding D19",
+           ("MonitorPool", "del_observed"): "decided by C15.e (a shared monitor is released only by its last holder); the release test can be written in several equivalent ways (set of ids before the deletion, scan after it) that a summary comparison cannot identify",
+           ("MonitorPool", "del_monitor"): "as del_observed",
+           (None, "poisson_interval"): "decided by the clauses C19.a/b/d; its vectorised masking / collision handling can be written in forms (indexed update, where, logical masks) that a summary comparison cannot identify"}
 MOVE = {("Conv2D", "selector"): "C06", ("LinearDense", "selector"): "C06", ("LinearDirect", "selector"): "C06", ("LinearLateral", "selector"): "C06",
         (None, "normalize"): "C16", ("RecordTensor", "select"): "C02", ("RecordTensor", "insert"): "C02"}
 
